@@ -51,6 +51,7 @@ InitH == [ called   |-> {},                       \* ops whose call was invoked
            live     |-> 0,                        \* pool threads spawned and not yet exited
            maxNow   |-> Pool0,
            minMax   |-> Pool0,
+           extra    |-> 0,                        \* pool threads added by explicit spawn_thread calls since the last despawn
            lowering |-> FALSE,                    \* maximum lowered below the live count, despawn not yet returned
            panicked |-> {},                       \* ops whose closure panicked
            atRisk   |-> {},                       \* objects with unfinished work at the moment a panic finished unwinding (outside C15's "afterwards")
@@ -127,7 +128,7 @@ ObsRet(h, t, op, c) ==
             THEN [h7b EXCEPT !.pdone = @ \cup {O(a[1]) : a \in {x \in h.panicOn : x[2] = t}}, !.atRisk = @ \cup Unfinished(h)]
             ELSE h7b
       \* C17: after despawn returned the pool is within its maximum
-      h9 == IF K(op) = "despawn" THEN Viol([h8 EXCEPT !.lowering = FALSE], h8.live > h8.maxNow, "C17:despawn") ELSE h8
+      h9 == IF K(op) = "despawn" THEN Viol([h8 EXCEPT !.lowering = FALSE, !.extra = 0], h8.live > h8.maxNow, "C17:despawn") ELSE h8
       \* C05: drop returned => the value was freed exactly once
       \* (an owner dropped by an unwinding thread leaves a panicked object alone: the value leaks rather than panicking again)
       h10 == Viol(h9, K(op) = "drop_obj" /\ c = 0 /\ h.freed[O(op)] # 1 /\ ~HeldByPipe(h, O(op))
@@ -200,8 +201,13 @@ ObsFreed(h, o) ==
   IN  h4
 
 \* pool thread spawned / exited (p = 1 for pool threads), maximum changed
-ObsSpawn(h, p) ==
-  IF p = 1 THEN Viol([h EXCEPT !.live = @ + 1], ~h.lowering /\ h.live + 1 > h.maxNow, "C17:exceeds-maximum") ELSE h
+\* (a thread added by an explicit Scheduler::spawn_thread call is not "scheduling work": such threads are counted apart until the next despawn)
+ObsSpawn(h, t, p) ==
+  LET st == StackOf(h, t)
+      explicit == Len(st) > 0 /\ K(st[Len(st)]) = "spawn_thread"
+  IN  IF p # 1 THEN h
+      ELSE IF explicit THEN [h EXCEPT !.live = @ + 1, !.extra = @ + 1]
+      ELSE Viol([h EXCEPT !.live = @ + 1], ~h.lowering /\ h.live + 1 - h.extra > h.maxNow, "C17:exceeds-maximum")
 
 ObsExit(h, t, p, panicking) ==
   LET h1 == IF p = 1 THEN [h EXCEPT !.live = IF @ > 0 THEN @ - 1 ELSE 0] ELSE h
